@@ -80,10 +80,23 @@ func (c Config) BuildDB(extraNode bool) *fakedb.DB {
 	return db
 }
 
+// ReverseTargets makes targets() name the graphs in reverse (not name-sorted) order.
+var ReverseTargets bool
+
+// UseZeroIDs gives the first node and the first relationship of the first graph the database id 0.
+func UseZeroIDs() {
+	nodeOffsets[0], edgeOffsets[0] = 0, 0
+}
+
 func (c Config) targets() []retriever.GraphTarget {
 	var ts []retriever.GraphTarget
 	for _, g := range c.Graphs {
 		ts = append(ts, retriever.GraphTarget{Name: g.Name})
+	}
+	if ReverseTargets {
+		for i, j := 0, len(ts)-1; i < j; i, j = i+1, j-1 {
+			ts[i], ts[j] = ts[j], ts[i]
+		}
 	}
 	return ts
 }
